@@ -359,6 +359,9 @@ class SNum(Sym):
         return r
 
     def __pow__(self, e):
+        if e == 2 and not isinstance(e, Sym) and getattr(self, 'norm_radicand', None) is not None \
+                and z3.is_app(self.t) and self.t.decl().name() == 'sqrt':
+            return self.norm_radicand            # (sqrt X)^2 == X for X >= 0
         if isinstance(e, SNum) and z3.is_int_value(e.t):
             e = e.t.as_long()
         if isinstance(e, SNum) and z3.is_rational_value(e.t):
@@ -642,6 +645,9 @@ class SComplex(Sym):
         return self.re * self.re + self.im * self.im
 
     def __abs__(self):
+        pol = getattr(self, 'polar', None)
+        if pol is not None:
+            return pol[0]                    # value was introduced as m*(cos a + j sin a) with m >= 0
         if _is_zero_poly(self.im):
             return abs(self.re.to_real())
         r = self.abs2().to_real().sqrt()
@@ -704,6 +710,16 @@ def _is_zero_poly(x):
         return z
     from . import poly
     return poly.is_zero(t)
+
+
+def polar(c, name):
+    """a complex unknown given in polar form m*(cos a + j sin a), m >= 0: every complex number has such a form, and
+    the library contracts |z| = m, angle(z) = a (mod 2 pi) then need no square roots"""
+    m, a = c.var(name + ".abs", "real"), c.var(name + ".arg", "real")
+    c.assume(m >= 0)
+    z = SComplex(m * a.cos(), m * a.sin())
+    z.polar = (m, a)
+    return z
 
 
 def frac_eq(a, b):
